@@ -11,3 +11,8 @@ pub assume_specification<T, F: FnOnce(T) -> bool>[ Option::<T>::is_none_or ](o: 
 pub assume_specification<T>[ bool::then_some ](b: bool, t: T) -> (r: Option<T>)
     ensures r == (if b { Some(t) } else { None::<T> });
 pub assume_specification<T: std::default::Default>[ std::mem::take ](t: &mut T) -> (r: T) ensures r == *old(t);
+pub assume_specification<T: Copy>[ Option::<&T>::copied ](o: Option<&T>) -> (r: Option<T>)
+    ensures r == (match o { Some(x) => Some(*x), None => None::<T> });
+pub assume_specification<T, F: FnOnce(T) -> bool>[ Option::<T>::is_some_and ](o: Option<T>, f: F) -> (r: bool)
+    requires o matches Some(x) ==> f.requires((x,)),
+    ensures o is None ==> !r, o matches Some(x) ==> f.ensures((x,), r);
